@@ -331,10 +331,19 @@ pub async fn handle_srt_packet(
             //   routing has mostly moved off it.
             //
             // Only data packets have seq != None (control packets have MSB set).
+            //
+            // Classic mode keeps no quality scores (routing there is capacity
+            // only, for every packet kind), and the override target must be a
+            // link the scheduler itself may route to: not timed out, not
+            // stall-gated.
             if seq.is_some()
+                && !config_snap.mode.is_classic()
                 && (critical_window.is_critical_now(packet_time_ms)
                     || srtla_protocol::is_srt_data_retransmit(pkt))
-                && let Some(best_idx) = srtla_core::priority::select_best_quality_idx(connections)
+                && let Some(best_idx) = srtla_core::priority::select_best_quality_eligible_idx(
+                    connections,
+                    packet_time_ms,
+                )
                 && sel_idx != Some(best_idx)
             {
                 trace!(
